@@ -520,7 +520,13 @@ func (g *gen) svTok(depth, containers int, sb *strings.Builder) {
 	case 12:
 		sb.WriteString("J")
 		g.svTok(depth-1, containers, sb)
-	case 13, 14, 15:
+	case 13:
+		if r.Chance(55) {
+			g.protoTok(depth, containers, sb)
+			return
+		}
+		fallthrough
+	case 14, 15:
 		sb.WriteString("A")
 		for n := r.Intn(4); n > 0; n-- {
 			g.svTok(depth-1, containers+1, sb)
@@ -562,6 +568,35 @@ func (g *gen) svTok(depth, containers int, sb *strings.Builder) {
 			if r.Chance(12) {
 				// an accessor whose getter hides a sibling
 				sb.WriteString("H" + unitsHex(keyPool[[]int{0, 1, 2, 19, 3}[r.Intn(5)]]) + ".")
+			}
+			g.svTok(depth-1, containers+1, sb)
+		}
+		sb.WriteString("}")
+	}
+}
+
+// protoTok writes an object with a prototype: own, own non-enumerable and inherited members over a
+// small key set, so that shadowing (own over inherited, non-enumerable own over inherited) and purely
+// inherited names all occur.  Inherited members may be accessors (H).
+func (g *gen) protoTok(depth, containers int, sb *strings.Builder) {
+	r := g.r
+	sb.WriteString([]string{"P", "Q"}[r.Intn(2)])
+	keys := []int{0, 1, 2, 19, 5, 6} // a b c z 0 1
+	usedOwn := map[int]bool{}
+	for part := 0; part < 3; part++ {
+		used := map[int]bool{}
+		for n := r.Intn(4); n > 0; n-- {
+			ki := keys[r.Intn(len(keys))]
+			if used[ki] || (part == 1 && usedOwn[ki]) {
+				continue
+			}
+			used[ki] = true
+			if part == 0 {
+				usedOwn[ki] = true
+			}
+			sb.WriteString(unitsHex(keyPool[ki]) + ".")
+			if part != 1 && r.Chance(15) {
+				sb.WriteString("H" + unitsHex(keyPool[keys[r.Intn(len(keys))]]) + ".")
 			}
 			g.svTok(depth-1, containers+1, sb)
 		}
@@ -800,6 +835,23 @@ func genC11(c *h.Ctx) {
 			e = "e3"
 		}
 		c.Add("str "+sb.String()+" - "+g.spaceTok()+" "+e, "tojson:random")
+	}
+	// objects with prototype chains, with and without property lists naming inherited, shadowed,
+	// non-enumerable, missing, duplicate and numeric names
+	for _, v := range []string{"P0062.D4000000000000000}}0061.D3ff0000000000000}", "Q0062.D4000000000000000}}0061.D3ff0000000000000}", "P0061.T}}0061.F0062.N}", "P}0061.D3ff0000000000000}0061.D4000000000000000}", "P}}0061.H0062.S0067.0030.D4008000000000000}", "AP}}0061.H0061.D3ff0000000000000}Q0063.N}0062.T}0062.F}]", "P0061.P}}0062.D3ff0000000000000}}}0062.D4000000000000000}", "Q}}}", "P0031.T}0030.F}00310030.N}"} {
+		for _, rt := range []string{"-", "LS0061.S0062.]", "LS0062.S0061.S0061.S007a.]", "LD3ff0000000000000D0000000000000000S00310030.]", "GS0061.S0062.S0063.]", "L]", "f0", "f1"} {
+			c.Add("str "+v+" "+rt+" -", "str:proto")
+			c.Add("str "+v+" "+rt+" D3ff0000000000000", "str:proto")
+		}
+	}
+	for i := 0; i < c.N(1500, 60000); i++ {
+		var sb strings.Builder
+		g.protoTok(3, 0, &sb)
+		rt := g.replTok()
+		if rt == "f4" && strings.Contains(sb.String(), "H") {
+			rt = "f0"
+		}
+		c.Add("str "+sb.String()+" "+rt+" "+g.spaceTok(), "str:proto")
 	}
 	// getters that make a sibling non-enumerable while the object is serialised
 	for _, v := range []string{"O0061.H0062.D3ff00000000000000062.D4000000000000000}", "O0062.D40000000000000000061.H0062.D3ff0000000000000}", "O0061.H0063.AT]0062.N0063.S0078.}", "AH0062.NT]", "O0061.O0061.H0062.N0062.T}0062.F}", "O0061.H0061.N}"} {
